@@ -11,7 +11,9 @@ def sh(cmd, timeout=2400):
 
 def main():
     cands = os.path.join(VERIF, "seeded", "_candidates")
-    names = sorted(sys.argv[1:] or os.listdir(cands))
+    if not os.path.isdir(cands):
+        cands = os.path.join(VERIF, "seeded")          # re-confirm the already promoted ones in place
+    names = sorted(sys.argv[1:] or [n for n in os.listdir(cands) if os.path.isdir(os.path.join(cands, n))])
     summary = {}
     for name in names:
         d = os.path.join(cands, name)
@@ -46,6 +48,9 @@ def main():
         if rc0 == 0 and rc1 != 0:
             dst = os.path.join(VERIF, "seeded", name)
             os.makedirs(dst, exist_ok=True)
+            if os.path.abspath(dst) == os.path.abspath(d):
+                json.dump(meta, open(os.path.join(dst, "meta.json"), "w"), indent=1)
+                continue
             shutil.copy(os.path.join(d, "patch.diff"), dst)
             shutil.copy(os.path.join(d, "demo.py"), dst)
             if os.path.exists(os.path.join(d, "notes.md")):
